@@ -22,7 +22,7 @@
       validate fail alike; what evaluates also validates — labrea's Cached.validate answers
       "valid" on a hit without validating);
     - cached expressions are in [frag]; around and between cache sites every constructor except
-      Map, Template nodes, AllOptions, option domains and effects is allowed ([scoh]). *)
+      Map, Template nodes, AllOptions and effects is allowed ([scoh]). *)
 From Coq Require Import List NArith ZArith Bool Lia.
 Import ListNotations.
 From LV Require Import Model.Base Model.Template Model.Eval Model.Derived Model.EvalRun
@@ -417,7 +417,7 @@ Section CacheSim.
   Qed.
 
   (** ** the expressions covered, together with the set [D] of dictionaries that reach them:
-      every constructor except Map, Template nodes, AllOptions, option domains and effects; a
+      every constructor except Map, Template nodes, AllOptions and effects; a
       pre-set / default wrapper ([EWith]) hands its sub-expression the overlaid dictionaries; a
       cached expression must be in [frag] (the fragment of the frame theorem), every dictionary
       reaching the cache site must be [okd], and each cache id is used with the one expression
@@ -425,7 +425,8 @@ Section CacheSim.
   Fixpoint scoh (e : expr) (D : dict -> Prop) {struct e} : Prop :=
     match e with
     | EValue _ => True
-    | EOption _ dflt dom => dom = None /\ match dflt with Some d => scoh d D | None => True end
+    | EOption _ dflt dom =>
+        match dflt with Some d => scoh d D | None => True end /\ match dom with Some d => scoh d D | None => True end
     | EApply a b => scoh a D /\ scoh b D
     | EBind src tbl dflt | ESwitch src tbl dflt =>
         scoh src D /\
@@ -708,16 +709,23 @@ Section CacheSim.
     Qed.
   End CachedCase.
 
-  Lemma Sim_option_eval (evc : expr -> MC value) (evn : expr -> MN value) k dflt o :
+  Lemma Pure_in_domain d v : Pure (in_domain store u d v) (in_domain unit u d v).
+  Proof. unfold in_domain. destruct d; pu; apply Pure_call_value. Qed.
+
+  Lemma Sim_option_eval (evc : expr -> MC value) (evn : expr -> MN value) k dflt dom o :
     (forall d, dflt = Some d -> Sim (evc d) (evn d)) ->
-    Sim (option_eval store u fuel evc k dflt None o) (option_eval unit u fuel evn k dflt None o).
+    (forall d, dom = Some d -> Sim (evc d) (evn d)) ->
+    Sim (option_eval store u fuel evc k dflt dom o) (option_eval unit u fuel evn k dflt dom o).
   Proof.
-    intros Hd. rewrite !option_eval_E. apply Sim_bind; [apply Sim_pure, Pure_rd|]. intros r.
-    apply Sim_bind; [|intros; leaf].
-    destruct r as [raw| |]; [| |leaf].
-    - apply Sim_pure. apply Pure_bind; [apply Pure_emit_reads|]. intros _.
-      apply Pure_bind; [apply Pure_of_rres|]. intros; apply Pure_ret.
-    - destruct dflt as [d|]; [now apply Hd|leaf].
+    intros Hd Hm. rewrite !option_eval_E. apply Sim_bind; [apply Sim_pure, Pure_rd|]. intros r.
+    apply Sim_bind.
+    - destruct r as [raw| |]; [| |leaf].
+      + apply Sim_pure. apply Pure_bind; [apply Pure_emit_reads|]. intros _.
+        apply Pure_bind; [apply Pure_of_rres|]. intros; apply Pure_ret.
+      + destruct dflt as [d|]; [now apply Hd|leaf].
+    - intros v. destruct dom as [de|]; [|leaf].
+      apply Sim_bind; [now apply Hm|]. intros d.
+      apply Sim_bind; [apply Sim_pure, Pure_in_domain|]. intros; leaf.
   Qed.
 
   Theorem sim_all e : forall D, scoh e D -> SimAll e D.
@@ -726,11 +734,12 @@ Section CacheSim.
     - (* EValue *)
       split; [|split]; [unf eval_EValue|unf validate_EValue|unf keys_EValue]; leaf.
     - (* EOption *)
-      destruct Hc as [-> Cd].
+      destruct Hc as [Cd Cm].
       assert (HD : SimOpt dflt D) by (destruct dflt; [apply H; assumption|exact I]).
-      assert (Hev : Sim (option_eval store u fuel (fun x => evalC x o) k dflt None o)
-                        (option_eval unit u fuel (fun x => evalN x o) k dflt None o)).
-      { apply Sim_option_eval. intros d ->. apply (HD o Ho). }
+      assert (HM : SimOpt dom D) by (destruct dom; [apply H0; assumption|exact I]).
+      assert (Hev : Sim (option_eval store u fuel (fun x => evalC x o) k dflt dom o)
+                        (option_eval unit u fuel (fun x => evalN x o) k dflt dom o)).
+      { apply Sim_option_eval; [intros d ->; apply (HD o Ho)|intros d ->; apply (HM o Ho)]. }
       split; [|split].
       + unf eval_EOption. apply Sim_wrap. exact Hev.
       + unf validate_EOption. apply Sim_bind; [apply Sim_pure, Pure_rd|]. intros r.
